@@ -167,7 +167,7 @@ Qed.
 (* ---------------------------------------------------------------- RNSsystemFixed: one node of the product tree *)
 (* RnsToRingLeft/Right combine the values u0 (mod p0) and u1 (mod p1) of the two children with the stored entry
    M01 = p0 * (p0^-1 mod p1):  I = (u1 - u0) * M01 + u0  (Left: then reduced mod p0 p1).  The step is exact; the recursion
-   over the levels of the tree (fixed_rec) is correspondence-tested, not proved. *)
+   over the levels of the tree (fixed_rec) is proved in ProofsFixed.v (fixed_tree_correct). *)
 Definition Fixed_pair_stmt : Prop :=
   forall p0 p1 u0 u1, 0 < p0 -> 0 < p1 -> Z.gcd p0 p1 = 1 ->
   let I := (u1 - u0) * (invmod p0 p1 * p0) + u0 in
@@ -185,4 +185,13 @@ Proof.
   repeat split; auto; try apply Z.mod_pos_bound; auto.
   - destruct A as [a Ha]. exists (a - I / (p0 * p1) * p1). nia.
   - destruct B as [b Hb]. exists (b - I / (p0 * p1) * p0). nia.
+Qed.
+
+(* the hypotheses of Fixed_pair_stmt and of Balanced_stmt are satisfiable *)
+Example fixed_pair_hyps : 0 < 7 /\ 0 < 10 /\ Z.gcd 7 10 = 1.
+Proof. repeat split; lia. Qed.
+Example balanced_hyps : good_moduli [3; 5; 7] /\ allodd [3; 5; 7] /\ inr_b 3 1 /\ RnsToRing_bal [3; 5; 7] [1; 2; 3] = 52.
+Proof.
+  split; [split; repeat constructor; try lia; reflexivity|]. split; [repeat constructor|].
+  split; [unfold inr_b; cbn; lia|vm_compute; reflexivity].
 Qed.
